@@ -767,7 +767,8 @@ class P(Prop):
         elif t in ("user", "userfn"):
             f = self.user_function(k)
             o = K.Kernel(f, k["s"])
-            o.setFunction(f)
+            if k.get("setf", True):      # "setf": false = the constructor alone (known finding 'kernel-ctor-ignores-function')
+                o.setFunction(f)
         else:
             o = {"uniform": K.UniformKernel, "triangular": K.TriangularKernel, "epanechnikov": K.EpanechnikovKernel,
                  "gaussian": K.GaussianKernel, "exponential": K.ExponentialKernel, "cubic": K.CubicKernel,
@@ -1222,6 +1223,16 @@ class P(Prop):
         if any(not domain_ok(w, v) for v in sigs):
             return None
         return msg
+
+    def classify(self, case, impl_out, msg):
+        """known-finding classes. 'kernel-ctor-ignores-function': Kernel.__init__(function, support) drops its `function`
+        argument (self.function = Kernel.__kernel_function, i.e. None), so a user-defined kernel built with the constructor
+        alone raises TypeError ('NoneType' object is not callable) as soon as it is sampled. Not generated by cases();
+        the witness is replayed when known_findings.json lists the class."""
+        k = case.get("k") or {}
+        if k.get("t") in ("user", "userfn") and k.get("setf") is False and isinstance(impl_out, dict) and impl_out.get("err") == "err:type":
+            return "kernel-ctor-ignores-function"
+        return None
 
     # ---------------------------------------------------------------- shrinking / search
     def _sig_names(self, case):
